@@ -151,6 +151,26 @@ func (w *World) Do(o fsx.Op) (r fsx.Reply, implFail bool, mis *reffs.Mismatch) {
 	case "DELETEALL":
 		mis = w.DeleteAll()
 		return
+	case "FILL":
+		// consume every free block with a filler file (one block per WRITE until NOSPC)
+		if _, ok := w.Vars.Live["root/filler"]; !ok {
+			if rr, _, m := w.Do(fsx.Op{K: "CREATE", H: "root", N: "filler"}); m != nil || !rr.OK() {
+				return rr, false, m
+			}
+		}
+		h, _ := w.resolve("root/filler")
+		id := w.Model.ByFH[fmt.Sprintf("%x", h)]
+		for i := 0; i < 5000; i++ {
+			off := (w.Model.Objs[id].Size + 4095) / 4096 * 4096
+			rr, _, m := w.Do(fsx.Op{K: "WRITE", H: "root/filler", Off: off, Cnt: 4096, Pat: 0x66, Stable: 2})
+			if m != nil {
+				return rr, false, m
+			}
+			if !rr.OK() {
+				break
+			}
+		}
+		return
 	case "CREATEMANY":
 		for i := 0; i < int(o.Cnt); i++ {
 			if _, _, m := w.Do(fsx.Op{K: "CREATE", H: o.H, N: fmt.Sprintf("%s%03d", o.N, i), As: "_"}); m != nil {
